@@ -1,18 +1,21 @@
 #!/bin/bash
-# tools/run_seed.sh <seed-id> [tier]  : apply seeded/<id>/patch.diff to /repo, run the property's check, undo, record outcome
+# tools/run_seed.sh <seed-id> [tier] : apply seeded/<id>/patch.diff to a scratch worktree of /repo HEAD, run the
+# property's check against it (NV_REPO), remove the worktree, record the outcome in seeded/<id>/meta.json
 id="$1"; tier="${2:-quick}"; prop="${id%%-*}"
+wt=$(mktemp -d /tmp/seedwt.XXXXXX); rmdir "$wt"
+git -C /repo worktree add --detach "$wt" HEAD -q || exit 2
 cd /verif
-git -C /repo diff --quiet || { echo "/repo has local changes"; exit 2; }
-git -C /repo apply "/verif/seeded/$id/patch.diff" || exit 2
-out=$(./check "$prop" --tier "$tier" 2>&1 | grep -E "VIOLATION|KNOWN-FINDING|^$prop " | head -12)
-git -C /repo checkout -- .
+if ! git -C "$wt" apply "/verif/seeded/$id/patch.diff"; then
+  git -C /repo worktree remove --force "$wt"; echo "patch does not apply to HEAD: $id"; exit 2; fi
+out=$(NV_REPO="$wt" ./check "$prop" --tier "$tier" 2>&1 | grep -E "VIOLATION|KNOWN-FINDING|^$prop " | head -12)
+git -C /repo worktree remove --force "$wt"
 echo "$out"
 python3 - "$id" "$tier" "$out" <<'PY'
 import json, sys
 p = '/verif/seeded/%s/meta.json' % sys.argv[1]
 m = json.load(open(p))
 caught = 'VIOLATION' in sys.argv[3]
-m.setdefault('check_results', {})[sys.argv[2]] = {'caught': caught, 'output': sys.argv[3].split('\n')[:6]}
+m.setdefault('check_results', {})[sys.argv[2]] = {'caught': caught, 'output': [l[:300] for l in sys.argv[3].split('\n') if not l.startswith('KNOWN')][:6]}
 json.dump(m, open(p, 'w'), indent=1)
 print('caught' if caught else 'MISSED', sys.argv[1])
 PY
